@@ -65,8 +65,11 @@ def sub (a b : Asset) : Asset := normalize (subRaw a b)
 def eq (a b : Asset) : Bool :=
   a.length == b.length && a.all (fun p => has b p.1 && p.2 == getD b p.1 0)
 
-/-- `Asset.__le__` -/
-def le (a b : Asset) : Bool := a.all (fun p => has b p.1 && decide (p.2 ≤ getD b p.1 0))
+/-- `Asset.__le__`: `for n in set(self) | set(other): if self.get(n, 0) > other.get(n, 0): return False` /
+`return True`.  The union of the two key sets is enumerated as `keys a ++ keys b`; a Python set is iterated in
+an unspecified order and without repeats, and the result depends on neither (`Asset.le_enumeration`,
+Proofs/Value.lean: every list with the same members gives the same answer). -/
+def le (a b : Asset) : Bool := (keys a ++ keys b).all (fun n => !decide (getD a n 0 > getD b n 0))
 
 /-- the abstraction: quantity of name `n` (absent = 0) -/
 def qty (a : Asset) (n : Bytes) : Int := getD a n 0
@@ -92,8 +95,9 @@ def sub (a b : MultiAsset) : MultiAsset := normalize (subRaw a b)
 def eq (a b : MultiAsset) : Bool :=
   a.length == b.length && a.all (fun p => has b p.1 && Asset.eq p.2 (getD b p.1 []))
 
-/-- `MultiAsset.__le__` -/
-def le (a b : MultiAsset) : Bool := a.all (fun p => has b p.1 && Asset.le p.2 (getD b p.1 []))
+/-- `MultiAsset.__le__`: `for p in set(self) | set(other): if not self.get(p, Asset()) <= other.get(p, Asset()):
+return False` / `return True` (enumeration of the union: see `Asset.le`, `MultiAsset.le_enumeration`) -/
+def le (a b : MultiAsset) : Bool := (keys a ++ keys b).all (fun p => Asset.le (getD a p []) (getD b p []))
 
 /-- inner loop of `MultiAsset.filter` for one policy -/
 def filterInner (crit : Bytes → Bytes → Int → Bool) (p : Bytes) (a : Asset) (acc : MultiAsset) : MultiAsset :=
